@@ -44,10 +44,13 @@ def _apply(v, repo):
     if not p.exists():
         return None
     s = p.read_text()
-    n = s.count(v['old'])
-    if n == 0 or (v['count'] and n != v['count']):
-        return None
-    return s.replace(v['old'], v['new'])
+    edits = v['old'] if isinstance(v['old'], list) else [(v['old'], v['new'])]
+    for old, new in edits:
+        n = s.count(old)
+        if n == 0 or (v['count'] and n != v['count']):
+            return None
+        s = s.replace(old, new)
+    return s
 
 
 def run_variant(v, repo='/repo'):
